@@ -406,6 +406,12 @@ def timeSignature (f : Option Str) : Except Err Unit :=
     | .error e => .error (.number e)
     | .ok v => if v < 1 then .error .timeSignature else .ok ()
 
+/-- `split.next().is_none_or(|next| matches!(next.chars().next(), Some('1')))` -/
+def timingChangeFlag (f : Option Str) : Bool :=
+  match f with
+  | none => true
+  | some s => s.head? == some '1'
+
 /-- the effect-flags field: kiai bit -/
 def kiaiFlag (f : Option Str) : Except Err Bool :=
   match f with
@@ -436,9 +442,7 @@ def parseTimingLine (scroll : Bool) (line : Str) : Except Err TLine :=
           match timeSignature rest.head? with
           | .error e => .error e
           | .ok () =>
-            let tc := match rest[4]? with
-              | none => true
-              | some s => s.head? == some '1'
+            let tc := timingChangeFlag rest[4]?
             match kiaiFlag rest[5]? with
             | .error e => .error e
             | .ok kiai =>
@@ -673,14 +677,20 @@ def readerLines (raw : List Str) : List Str :=
    | (c :: l) :: ls => if c.toNat = 0xFEFF then l :: ls else raw
    | _ => raw).map trimEnd
 
-/-- `DecodeBeatmap::decode` up to `state.into()`: the final `BeatmapState` -/
-def decodeState (raw : List Str) : BState :=
-  let ls := readerLines raw
-  let (v, rest) := parseVersion ls
-  let st := BState.init (v.getD 14)
-  match firstSection rest with
+/-- `DecodeBeatmap::decode` on the lines the reader yields, up to `state.into()` -/
+def decodeLines (ls : List Str) : BState :=
+  let st := BState.init ((parseVersion ls).1.getD 14)
+  match firstSection (parseVersion ls).2 with
   | none => st
   | some (sec, body) => (route sec body).foldl (fun s p => (stepLine p.1 s p.2).1) st
+
+/-- `DecodeBeatmap::decode` up to `state.into()`: the final `BeatmapState` -/
+def decodeState (raw : List Str) : BState := decodeLines (readerLines raw)
+
+/-- the six sections whose `parse_*` is `Ok(())` without touching the state -/
+def Sec.isNoop : Sec → Bool
+  | .editor | .metadata | .colors | .variables | .catchTheBeat | .mania => true
+  | _ => false
 
 /-- the decoded `Beatmap` as far as the model goes -/
 structure Decoded where
